@@ -56,7 +56,7 @@ def signature(m):
     if e["ev"] == "load":
         return "structural %s: %s" % ("/".join(sorted(set(x for g in e["outs"] for x in g["entries"] if g["out"] != "error"))[:3]), what)
     if e["ev"] == "key":
-        return "key %s %s: %s" % (e.get("type"), e.get("edit", ""), what)
+        return "key %s/%s %s: %s" % (e.get("type"), e.get("base"), e.get("edit", ""), what)
     return "bytes %s: %s" % (e.get("form", ""), what)
 
 
